@@ -476,6 +476,15 @@ def _re_to_smt(pattern):
             return conv(list(av[3]))
         if name == 'BRANCH':
             return '(re.union ' + ' '.join(conv(list(b)) for b in av[1]) + ')'
+        if name == 'AT':
+            # ^ at the very beginning is redundant for match()/fullmatch(); $ (no MULTILINE) matches at the end of the
+            # string *or just before a final newline* - exactly CPython's semantics
+            if str(av) in ('AT_BEGINNING', 'AT_BEGINNING_STRING'):
+                return '(str.to_re "")'
+            if str(av) == 'AT_END':
+                return '(re.opt (str.to_re "\\u{a}"))'
+            if str(av) == 'AT_END_STRING':
+                return '(str.to_re "")'
         raise Untranslatable(pattern, f'(regex construct {name})')
 
     return conv(list(tree))
@@ -497,9 +506,19 @@ def k5_hc_regex(_p=None):
         if pat is None:
             raise Untranslatable(mod, '(HC_STRING_PATTERN = re.compile(<literal>) not found)')
         fnv, _m, _s = find_function(P_VC, 'validate_string')
-        if 'HC_STRING_PATTERN.fullmatch(s)' not in ast.unparse(fnv):
-            raise Untranslatable(fnv, '(validate_string no longer uses fullmatch)')
+        src_v = ast.unparse(fnv)
         impl = _re_to_smt(pat)
+        if 'HC_STRING_PATTERN.fullmatch(s)' in src_v:
+            pass
+        elif 'HC_STRING_PATTERN.match(s)' in src_v:
+            # match(): the pattern must match a prefix; what follows is unconstrained unless the pattern ends with an
+            # end anchor (then nothing may follow the part the anchor allows)
+            if not (pat.endswith('$') or pat.endswith('\\Z')):
+                impl = f'(re.++ {impl} re.all)'
+        else:
+            raise Untranslatable(fnv, '(validate_string uses neither fullmatch nor match on HC_STRING_PATTERN)')
+        if 'is None' not in src_v:
+            raise Untranslatable(fnv, '(the match result is not tested with "is None")')
     except (Untranslatable, KeyError) as e:
         return {'verdict': 'inconclusive', 'message': str(e), 'queries': queries}
     spec = '(re.+ (re.union (re.range "A" "Z") (re.range "0" "9") (str.to_re "_") (str.to_re "-")))'
@@ -512,7 +531,8 @@ def k5_hc_regex(_p=None):
     for rr in (r, r2):
         if rr['verdict'] != 'unsat' and not bad:
             m = re.search(r'\(\(s "(.*)"\)\)', rr['model'] or '')
-            bad = (rr['verdict'], f'pattern {pat!r} and [A-Z0-9_-]+ differ on {m.group(1) if m else "?"!r}',
-                   [m.group(1) if m else ''])
+            w = m.group(1) if m else ''
+            w = re.sub(r'\\u\{([0-9a-fA-F]+)\}', lambda mm: chr(int(mm.group(1), 16)), w)
+            bad = (rr['verdict'], f'pattern {pat!r} and [A-Z0-9_-]+ differ on {w!r}', [w, True])
     return _finish(queries, bad, {'pattern': pat, 'smt': impl}, f'{pat!r} == [A-Z0-9_-]+ as languages (all lengths)',
                    bad[2] if bad else None)
